@@ -880,16 +880,27 @@ enum cc_stat cc_deque_filter(CC_Deque *deque, bool (*pred) (const void*), CC_Deq
 
     size_t i;
     CC_Deque *filtered = NULL;
-    cc_deque_new(&filtered);
+    CC_DequeConf conf;
 
-    if (!filtered)
-        return CC_ERR_ALLOC;
+    conf.capacity   = deque->capacity;
+    conf.mem_alloc  = deque->mem_alloc;
+    conf.mem_calloc = deque->mem_calloc;
+    conf.mem_free   = deque->mem_free;
+
+    enum cc_stat status = cc_deque_new_conf(&conf, &filtered);
+
+    if (status != CC_OK)
+        return status;
 
     for (i = 0; i < deque->size; i++) {
         size_t d_index = (deque->first + i) & (deque->capacity - 1);
 
         if (pred(deque->buffer[d_index])) {
-            cc_deque_add(filtered, deque->buffer[d_index]);
+            status = cc_deque_add(filtered, deque->buffer[d_index]);
+            if (status != CC_OK) {
+                cc_deque_destroy(filtered);
+                return status;
+            }
         }
     }
 
